@@ -255,6 +255,18 @@ def run_scripted(case):
         if not in_pack and any(c["new"] != ZERO for c in cmds):
             pack = make_pack([], [])  # empty pack
         objs_after = objects_after_unpack(in_pack)
+        damaged = None
+        if pack and rng.random() < 0.15:
+            # the pack does not survive the wire: nothing of the push may take effect, whatever the commands need from it
+            damaged = rng.choice(["trailer-bit", "truncated", "body-bit"])
+            bp = bytearray(pack)
+            if damaged == "trailer-bit":
+                bp[-1 - rng.randrange(20)] ^= 0x01
+            elif damaged == "truncated":
+                bp = bp[:max(12, len(bp) - rng.randrange(1, 30))]
+            else:
+                bp[rng.randrange(12, max(13, len(bp) - 20))] ^= 0x40
+            pack = bytes(bp)
         d = _st["scratch"].sub("s%d" % rng.randrange(10 ** 9))
         shutil.rmtree(d)
         shutil.copytree(_st["srv"], d, symlinks=True)
@@ -279,14 +291,28 @@ def run_scripted(case):
             repo.close()
         stats["pushes"] = stats.get("pushes", 0) + 1
         post = server_refs(d)
-        unpack, report = parse_report(out.getvalue(), sideband)
+        try:
+            unpack, report = parse_report(out.getvalue(), sideband)
+        except Exception:
+            unpack, report = None, {}      # the handler died before (or while) reporting: judged below through `err` and the refs
         tag = "scripted" + ("/atomic" if atomic else "")
         if err:
             # the handler died: nothing may have changed
             if post != _st["pre_refs"]:
                 viol.append({"sig": "C06/%s/handler-raised-%s-after-changing-refs" % (tag, err.split(":")[0]), "cmds": show(cmds), "err": err})
             stats["handler_raised"] = stats.get("handler_raised", 0) + 1
+        elif damaged and unpack != b"ok":
+            stats["damaged_packs_refused"] = stats.get("damaged_packs_refused", 0) + 1
+            if post != _st["pre_refs"]:
+                ch = sorted(set(k for k in set(post) | set(_st["pre_refs"]) if post.get(k) != _st["pre_refs"].get(k)))
+                kinds = sorted(set("%s/%s" % (c["oldk"], c["newk"]) for c in cmds if c["ref"] in ch))
+                viol.append({"sig": "C06/%s/refs-changed-although-the-pack-was-refused/%s" % (tag, "+".join(kinds)[:60]), "damage": damaged, "cmds": show(cmds),
+                             "changed": [c_.decode() for c_ in ch]})
+            if any(v == b"ok" for v in report.values()):
+                viol.append({"sig": "C06/%s/command-reported-ok-although-the-pack-was-refused" % tag, "damage": damaged, "cmds": show(cmds)})
         else:
+            if damaged:
+                stats["damaged_pack_accepted"] = stats.get("damaged_pack_accepted", 0) + 1     # e.g. the flipped bit hit nothing that is checked: judged as usual
             judge(tag, cmds, _st["pre_refs"], post, report, unpack, atomic, objs_after, viol, d)
         fs = core.git(["fsck", "--connectivity-only", "--no-dangling", "--no-progress"], cwd=d, check=False)
         if fs.returncode != 0:
